@@ -736,7 +736,8 @@ func (a *analyzer) evalSelector(x *ast.SelectorExpr, m mode) *val {
 	loc := sname + "." + x.Sel.Name
 	fc, _ := a.pkg.classify(ft)
 	_, ptr := stripPtr(ft)
-	a.access(loc, m, bv.fresh && !bv.shared, isSyncClass(fc) && !ptr)
+	// a value-typed sync object or foreign container IS its state: using it is not a separate read of the field
+	a.access(loc, m, bv.fresh && !bv.shared, (isSyncClass(fc) || fc == tForeign) && !ptr)
 	return &val{typ: ft, shared: bv.shared, fresh: bv.fresh, origin: loc}
 }
 
